@@ -441,7 +441,7 @@ pub fn render_float(
 	sign: bool,
 	ensure_pt: bool,
 	trailing: bool,
-) {
+) -> Result<()> {
 	// Represent the rounded number as an integer * 1/10**prec.
 	// Note that it can also be equal to 10**prec and we'll need to carry
 	// over to the wholes.  We operate on the absolute numbers, so that we
@@ -452,6 +452,9 @@ pub fn render_float(
 	// i.e "%.17f" % 0.05 should end with 0, not with 1
 	#[allow(clippy::suboptimal_flops)]
 	let numerator = n.abs() * denominator + 0.5;
+	if !numerator.is_finite() {
+		bail!("number is too large to be formatted with precision {precision}");
+	}
 	let whole = (numerator / denominator).floor();
 	let frac = numerator.floor() % denominator;
 
@@ -463,7 +466,7 @@ pub fn render_float(
 		if ensure_pt {
 			out.push('.');
 		}
-		return;
+		return Ok(());
 	}
 	if trailing || frac > 0.0 {
 		out.push('.');
@@ -483,6 +486,7 @@ pub fn render_float(
 	} else if ensure_pt {
 		out.push('.');
 	}
+	Ok(())
 }
 
 #[allow(clippy::fn_params_excessive_bools)]
@@ -496,7 +500,7 @@ pub fn render_float_sci(
 	ensure_pt: bool,
 	trailing: bool,
 	caps: bool,
-) {
+) -> Result<()> {
 	let exponent = if n == 0.0 {
 		0.0
 	} else {
@@ -524,9 +528,10 @@ pub fn render_float_sci(
 
 	render_float(
 		out, mantissa, padding, precision, blank, sign, ensure_pt, trailing,
-	);
+	)?;
 	out.push(if caps { 'E' } else { 'e' });
 	out.push_str(&exponent_str);
+	Ok(())
 }
 
 #[allow(clippy::too_many_lines)]
@@ -600,7 +605,7 @@ pub fn format_code(
 				clfags.alt,
 				true,
 				code.caps,
-			);
+			)?;
 		}
 		ConvTypeV::Float => {
 			let value = f64::from_untyped(value.clone())?;
@@ -613,7 +618,7 @@ pub fn format_code(
 				clfags.sign,
 				clfags.alt,
 				true,
-			);
+			)?;
 		}
 		ConvTypeV::Shorter => {
 			let value = f64::from_untyped(value.clone())?;
@@ -635,7 +640,7 @@ pub fn format_code(
 					clfags.alt,
 					clfags.alt,
 					code.caps,
-				);
+				)?;
 			} else {
 				let digits_before_pt = 1.max(exponent as u16 + 1);
 				render_float(
@@ -647,7 +652,7 @@ pub fn format_code(
 					clfags.sign,
 					clfags.alt,
 					clfags.alt,
-				);
+				)?;
 			}
 		}
 		ConvTypeV::Char => match value.clone() {
